@@ -42,26 +42,29 @@ package common
 //@ define fitsIdle(node *node_info.NodeInfo, task *pod_info.PodInfo) bool = node_info.bestEffort(task) || node_info.fitsAmount(node, task, node.Idle)
 //@ define sharedReq(task *pod_info.PodInfo) bool = task.ResourceRequestType == "Fraction" || task.ResourceRequestType == "GpuMemory"
 // Environment of a statement operation. Like framework's Statement ops (which `assume` jobReady/nodeReady at
-// entry), the units that call stmt.Allocate / stmt.Pipeline ASSUME the session skeleton (stmtOK: session,
-// cluster maps and handler list are non-nil) at their own entry instead of making every caller carry it through
-// plugin callbacks and Rollback (neither re-establishes it, see report); the assumption is listed in the evidence.
-//@ define envOK(stmt *framework.Statement, node *node_info.NodeInfo) bool = framework.stmtOK(stmt) && (node != nil && node.Name in stmt.ssn.ClusterInfo.Nodes ==> (forall k in stmt.ssn.ClusterInfo.Nodes[node.Name].PodInfos :: stmt.ssn.ClusterInfo.Nodes[node.Name].PodInfos[k] != nil))
-// What callers DO carry (proved at every call site): non-nil arguments and the well-formed log.
-//@ define placeReady(ssn *framework.Session, stmt *framework.Statement, task *pod_info.PodInfo, node *node_info.NodeInfo) bool = ssn != nil && stmt != nil && framework.wfLog(stmt) && task != nil && node != nil
+// entry), the units that call stmt.Allocate / stmt.Pipeline ASSUME at their own entry the session skeleton (stmtOK:
+// session, cluster maps and handler list non-nil) and non-nil task / node, instead of making every caller carry
+// them: callers read tasks and nodes from slices inside loops whose bodies call plugin callbacks and Rollback
+// (`modifies *`), which re-establish neither (see report). The assumption is listed in the evidence.
+//@ define envOK(stmt *framework.Statement, task *pod_info.PodInfo, node *node_info.NodeInfo) bool = framework.stmtOK(stmt) && task != nil && node != nil
+// What callers DO carry (proved at every call site): session / statement pointers and the well-formed log.
+//@ define placeReady(ssn *framework.Session, stmt *framework.Statement) bool = ssn != nil && stmt != nil && framework.wfLog(stmt)
 // the log got exactly one new entry and it is an allocate (bind) entry / a pipeline (nominate) entry
 //@ define boundNow(stmt *framework.Statement) bool = framework.appendedOne(stmt) && framework.isAllocateOp(framework.lastOp(stmt))
 //@ define nominatedNow(stmt *framework.Statement) bool = framework.appendedOne(stmt) && framework.isPipelineOp(framework.lastOp(stmt))
 //@ define prefixKept(stmt *framework.Statement) bool = forall j int :: 0 <= j && j < old(len(stmt.operations)) ==> stmt.operations[j] == old(stmt.operations[j])
 //@ define lenGrows(stmt *framework.Statement) bool = len(stmt.operations) >= old(len(stmt.operations))
+// some entry appended by this call is a bind (allocate) entry
+//@ define bindAppended(stmt *framework.Statement) bool = exists j int :: old(len(stmt.operations)) <= j && j < len(stmt.operations) && framework.isAllocateOp(stmt.operations[j])
 //@ define logKept(stmt *framework.Statement) bool = lenGrows(stmt) && prefixKept(stmt)
 
-// The only place of the allocate path that issues a real bind (stmt.Allocate). Its precondition IS the
-// property: it is proved at every call site ("bind only what fits Idle").
+// The only place of the allocate path that issues a real bind (stmt.Allocate) for whole-GPU / CPU requests. Its
+// precondition IS the property: it is proved at every call site ("bind only what fits Idle").
 //@ func bindTaskToNode
 //@   props C01 C03
-//@   requires placeReady(ssn, stmt, task, node)
+//@   requires placeReady(ssn, stmt)
 //@   requires fitsIdle(node, task)
-//@   assume envOK(stmt, node)
+//@   assume envOK(stmt, task, node)
 //@   modifies *
 //@   ensures [boundOnSuccess] result ==> boundNow(stmt) && task.Status == pod_status.Allocated && task.NodeName == old(node.Name)
 //@   ensures [failureKeepsLen] !result ==> len(stmt.operations) == old(len(stmt.operations))
@@ -71,57 +74,307 @@ package common
 //@   ensures [wfRevKept] framework.wfRev(stmt)
 //@   ensures [wfBackKept] framework.wfBack(stmt)
 //@   ensures [wfTaskKept] framework.wfTask(stmt)
+//@   ensures [revFailMono] framework.revFailMono()
 //@ end
 
 //@ func pipelineTaskToNode
 //@   props C01 C03
-//@   requires placeReady(ssn, stmt, task, node)
-//@   assume envOK(stmt, node)
+//@   requires placeReady(ssn, stmt)
+//@   assume envOK(stmt, task, node)
 //@   modifies *
 //@   ensures [lenGrows] lenGrows(stmt)
 //@   ensures [prefixKept] prefixKept(stmt)
 //@   ensures [nominatedOnSuccess] updateTasksIfExistsOnNode && result ==> nominatedNow(stmt) && task.NodeName == old(node.Name)
+//@   ensures [neverBinds] !bindAppended(stmt)
 //@   ensures [wfKnownKept] framework.wfKnown(stmt)
 //@   ensures [wfRevKept] framework.wfRev(stmt)
 //@   ensures [wfBackKept] framework.wfBack(stmt)
 //@   ensures [wfTaskKept] framework.wfTask(stmt)
+//@   ensures [revFailMono] framework.revFailMono()
 //@ end
 
 //@ func allocateTaskToNode
-//@   props XALLOC
-//@   requires placeReady(ssn, stmt, task, node)
-//@   assume envOK(stmt, node) && node_info.nodeReadable(node) && node_info.taskReadable(task)
+//@   props C01 C03
+//@   requires placeReady(ssn, stmt)
+//@   assume envOK(stmt, task, node) && node_info.nodeReadable(node) && node_info.taskReadable(task)
+//@   assume node.Name in stmt.ssn.ClusterInfo.Nodes ==> (forall k in stmt.ssn.ClusterInfo.Nodes[node.Name].PodInfos :: stmt.ssn.ClusterInfo.Nodes[node.Name].PodInfos[k] != nil)
 //@   modifies *
-//@   # C01 "IsTaskAllocatable (fits Idle) decides bind vs pipeline": a bind entry appears only if the request fitted Idle at entry
-//@   ensures [bindOnlyIfFitsIdle] !old(sharedReq(task)) && !isPipelineOnly && result && boundNow(stmt) ==> old(fitsIdle(node, task))
-//@   ensures [decisionIsIsTaskAllocatable] !old(sharedReq(task)) && !isPipelineOnly && result ==> (boundNow(stmt) <==> old(node.IsTaskAllocatable(task)))
-//@   ensures [elseNominated] !old(sharedReq(task)) && !isPipelineOnly && result && !old(node.IsTaskAllocatable(task)) ==> nominatedNow(stmt)
-//@   ensures [lenGrows] !old(sharedReq(task)) ==> lenGrows(stmt)
-//@   ensures [prefixKept] !old(sharedReq(task)) ==> prefixKept(stmt)
-//@   ensures [wfKnownKept] !old(sharedReq(task)) ==> framework.wfKnown(stmt)
-//@   ensures [wfRevKept] !old(sharedReq(task)) ==> framework.wfRev(stmt)
-//@   ensures [wfBackKept] !old(sharedReq(task)) ==> framework.wfBack(stmt)
-//@   ensures [wfTaskKept] !old(sharedReq(task)) ==> framework.wfTask(stmt)
-//@ end
-
-// ---- solver ----
-// (section owned by helper "solver"; alloc: when you put EvictAllPreemptees / GetJobsToAllocate /
-// TryToVirtuallyAllocatePreemptorAndGetVictims under a VERIFIED contract, REPLACE the block here - a duplicate
-// key is a parse error - and keep the clause tags, the solver layer is proved against them.)
-// TRUSTED for now: the three functions call Statement.Evict / AllocateJob repeatedly; framework's statement
-// operations are `modifies *` and do not re-establish stmtOK(s) for the next call, and AllocateJob has no
-// contract yet, so their bodies cannot be verified today. What is assumed is only how they treat the
-// statement log they are given (C06 "evictions and preemptor pipeline share one Statement").
-//@ func EvictAllPreemptees
-//@   props C06
-//@   trusted
-//@   note trusted (to be replaced by alloc's verified contract): the body calls stmt.Evict(task, ...) for the tasks of preempteeTasks in order and stops at the first error; Evict appends one evict entry for its task on success and leaves the log alone on error (framework [appendsOneEvict] [capturesTask] [errorKeepsLog])
-//@   requires stmt != nil && framework.wfLog(stmt)
-//@   modifies *
+//@   # (the three heavy clauses are `lemma`s: proved at exit like an ensures, but not copied into every caller's queries)
+//@   # C01 "Capacity held by pods that are only terminating ... is never handed to a bind" / mechanism "IsTaskAllocatable (fits
+//@   # Idle) decides bind vs pipeline in allocateTaskToNode": whatever the request type, a bind (allocate) entry is appended
+//@   # only if the request fitted the node's Idle at entry, and never in a pipeline-only pass
+//@   lemma [bindOnlyIfFitsIdle] bindAppended(stmt) ==> old(fitsIdle(node, task))
+//@   ensures [pipelineOnlyNeverBinds] isPipelineOnly ==> !bindAppended(stmt)
+//@   # whole-GPU / CPU-only requests: the decision IS IsTaskAllocatable evaluated on the entry state (both directions)
+//@   lemma [decisionIsIsTaskAllocatable] !old(sharedReq(task)) && !isPipelineOnly && result ==> (boundNow(stmt) <==> old(node.IsTaskAllocatable(task)))
+//@   lemma [elseNominated] !old(sharedReq(task)) && !isPipelineOnly && result && !old(node.IsTaskAllocatable(task)) ==> nominatedNow(stmt)
+//@   ensures [oneEntryOnSuccess] !old(sharedReq(task)) && !isPipelineOnly && result ==> len(stmt.operations) == old(len(stmt.operations)) + 1
+//@   ensures [lenGrows] lenGrows(stmt)
+//@   ensures [prefixKept] prefixKept(stmt)
 //@   ensures [wfKnownKept] framework.wfKnown(stmt)
 //@   ensures [wfRevKept] framework.wfRev(stmt)
 //@   ensures [wfBackKept] framework.wfBack(stmt)
 //@   ensures [wfTaskKept] framework.wfTask(stmt)
+//@   ensures [revFailMono] framework.revFailMono()
+//@ end
+
+// ---- (b) the gang protocol: allocateTask .. AllocateJob ------------------------------------------------------
+// All units below are `nopanic off`: they read jobs, tasks, nodes and fit-error maps from the heap after plugin
+// callbacks / Rollback (`modifies *`), whose non-nil-ness no contract carries; what IS proved is the log protocol.
+
+// Error bookkeeping only (fit errors on the job); never touches a statement. (If the task's sub-group is not one of
+// the job's pod sets, taskSubGroup is nil and GetNumActiveUsedTasks dereferences it: see report.)
+//@ func handleFailedTaskAllocation
+//@   props C03
+//@   nopanic off
+//@   modifies *
+//@   ensures [logsSame] framework.logsSame()
+//@   ensures [noReverse] framework.reverseFailures() == old(framework.reverseFailures())
+//@ end
+
+// One task: tries the candidate nodes in score order; FittingNode (plugin predicates, C04) gates every placement.
+// The log only grows, earlier entries stay, and it stays well-formed (what Rollback needs).
+//@ func allocateTask
+//@   props C03 C04
+//@   nopanic off
+//@   usestable PodInfo.ResourceRequestType
+//@   requires placeReady(ssn, stmt)
+//@   modifies *
+//@   loop 1
+//@     modifies *
+//@     invariant 0 - 1 <= rangeindex && rangeindex < len(orderedNodes)
+//@     invariant !success
+//@     invariant lenGrows(stmt)
+//@     invariant prefixKept(stmt)
+//@     invariant framework.wfKnown(stmt)
+//@     invariant framework.wfRev(stmt)
+//@     invariant framework.wfBack(stmt)
+//@     invariant framework.wfTask(stmt)
+//@     invariant framework.revFailMono()
+//@     decreases len(orderedNodes) - rangeindex
+//@   ensures [entryOnSuccess] success && !isPipelineOnly && !old(sharedReq(task)) ==> len(stmt.operations) >= old(len(stmt.operations)) + 1
+//@   ensures [lenGrows] lenGrows(stmt)
+//@   ensures [prefixKept] prefixKept(stmt)
+//@   ensures [wfKnownKept] framework.wfKnown(stmt)
+//@   ensures [wfRevKept] framework.wfRev(stmt)
+//@   ensures [wfBackKept] framework.wfBack(stmt)
+//@   ensures [wfTaskKept] framework.wfTask(stmt)
+//@   ensures [revFailMono] framework.revFailMono()
+//@ end
+
+// C03: "the scheduler never binds fewer pods than needed to reach the minimum" / mechanism "Statement commit/discard
+// per job": the tasks of one pod set on one node set - all or nothing. noShared: no fractional / GPU-memory request
+// among the tasks (for those the number of log entries per placement is not pinned down by gpu_sharing's contract).
+//@ define noShared(ts []*pod_info.PodInfo) bool = forall i int :: 0 <= i && i < len(ts) ==> !sharedReq(ts[i])
+// hypothesis of the roll-back clauses: no stored ReverseOperation failed during the call (framework ghost counter);
+// allocatePodSet / allocateSubGroupSet only LOG a failing Rollback, there is no program-visible trace of it.
+//@ define noReverseFailure() bool = framework.reverseFailures() == old(framework.reverseFailures())
+
+//@ func allocateTasksOnNodeSet
+//@   props C03
+//@   nopanic off
+//@   usestable PodInfo.ResourceRequestType []*PodInfo
+//@   requires placeReady(ssn, stmt)
+//@   modifies *
+//@   loop 1
+//@     modifies *
+//@     invariant 0 - 1 <= rangeindex && rangeindex < len(tasksToAllocate)
+//@     invariant lenGrows(stmt)
+//@     invariant prefixKept(stmt)
+//@     invariant framework.wfKnown(stmt)
+//@     invariant framework.wfRev(stmt)
+//@     invariant framework.wfBack(stmt)
+//@     invariant framework.wfTask(stmt)
+//@     invariant framework.revFailMono()
+//@     invariant !isPipelineOnly && old(noShared(tasksToAllocate)) ==> len(stmt.operations) >= old(len(stmt.operations)) + rangeindex + 1
+//@     decreases len(tasksToAllocate) - rangeindex
+//@   # "result == true ==> every task of tasksToAllocate was given to allocateTask successfully": one log entry per task at least
+//@   ensures [allPlacedOnSuccess] result && !isPipelineOnly && old(noShared(tasksToAllocate)) ==> len(stmt.operations) >= old(len(stmt.operations)) + len(tasksToAllocate)
+//@   ensures [lenGrows] lenGrows(stmt)
+//@   ensures [prefixKept] prefixKept(stmt)
+//@   ensures [wfKnownKept] framework.wfKnown(stmt)
+//@   ensures [wfRevKept] framework.wfRev(stmt)
+//@   ensures [wfBackKept] framework.wfBack(stmt)
+//@   ensures [wfTaskKept] framework.wfTask(stmt)
+//@   ensures [revFailMono] framework.revFailMono()
+//@ end
+
+// C03 / C04 mechanism "allocateSubGroupSet tries them with checkpoint/rollback": every node set the topology plugin
+// offers is tried from the checkpoint taken right before; a failed attempt is rolled back before the next one.
+//@ func allocatePodSet
+//@   props C03 C04
+//@   nopanic off
+//@   usestable PodInfo.ResourceRequestType []*PodInfo
+//@   requires placeReady(ssn, stmt)
+//@   modifies *
+//@   loop 1
+//@     modifies *
+//@     invariant 0 - 1 <= rangeindex && rangeindex < len(nodeSets)
+//@     invariant lenGrows(stmt)
+//@     invariant prefixKept(stmt)
+//@     invariant framework.wfKnown(stmt)
+//@     invariant framework.wfRev(stmt)
+//@     invariant framework.wfBack(stmt)
+//@     invariant framework.wfTask(stmt)
+//@     invariant framework.revFailMono()
+//@     invariant noReverseFailure() ==> len(stmt.operations) == old(len(stmt.operations))
+//@     decreases len(nodeSets) - rangeindex
+//@   # "result == false ==> the statement is rolled back to the checkpoint taken at entry" (hypothesis: Rollback did not fail,
+//@   # i.e. no reverse closure failed; a failing Rollback is only logged by the code)
+//@   ensures [failedIsRolledBack] !result && noReverseFailure() ==> len(stmt.operations) == old(len(stmt.operations))
+//@   ensures [allPlacedOnSuccess] result && !isPipelineOnly && old(noShared(tasksToAllocate)) ==> len(stmt.operations) >= old(len(stmt.operations)) + len(tasksToAllocate)
+//@   ensures [lenGrows] lenGrows(stmt)
+//@   ensures [prefixKept] prefixKept(stmt)
+//@   ensures [wfKnownKept] framework.wfKnown(stmt)
+//@   ensures [wfRevKept] framework.wfRev(stmt)
+//@   ensures [wfBackKept] framework.wfBack(stmt)
+//@   ensures [wfTaskKept] framework.wfTask(stmt)
+//@   ensures [revFailMono] framework.revFailMono()
+//@ end
+
+// sort.Slice with a comparator closure over the session's plugin comparators: library call with a function value,
+// outside the subset. Assumed: a copy of the input is returned in some order; nothing else changes.
+//@ func orderedSubGroupSets
+//@   props C03 C04
+//@   trusted
+//@   note sort.Slice + comparator closure (calls ssn.SubGroupSetOrderFn): outside the subset; assumed to return a permutation copy and to leave statements alone
+//@   modifies *
+//@   ensures [logsSame] framework.logsSame()
+//@   ensures [noReverse] framework.reverseFailures() == old(framework.reverseFailures())
+//@   ensures [sameLen] len(result) == len(subGroupSets)
+//@   ensures [onlyInput] forall i int :: 0 <= i && i < len(result) ==> (exists j int :: 0 <= j && j < len(subGroupSets) && subGroupSets[j] == result[i])
+//@ end
+//@ func orderedPodSets
+//@   props C03 C04
+//@   trusted
+//@   note sort.Slice + comparator closure (calls ssn.PodSetOrderFn): outside the subset; assumed to return a permutation copy and to leave statements alone
+//@   modifies *
+//@   ensures [logsSame] framework.logsSame()
+//@   ensures [noReverse] framework.reverseFailures() == old(framework.reverseFailures())
+//@   ensures [sameLen] len(result) == len(podSets)
+//@   ensures [onlyInput] forall i int :: 0 <= i && i < len(result) ==> (exists j int :: 0 <= j && j < len(podSets) && podSets[j] == result[i])
+//@ end
+
+// the tasks of `tasks` whose sub-group is one of podSets, in order (C03: a pod set is handed exactly its own tasks)
+//@ func filterTasksForPodSets
+//@   props C03
+//@   nopanic off
+//@   loop 1
+//@     invariant 0 - 1 <= rangeindex && rangeindex < len(tasks)
+//@     invariant len(result) <= rangeindex + 1
+//@     invariant forall i int :: 0 <= i && i < len(result) ==> (exists j int :: 0 <= j && j <= rangeindex && tasks[j] == result[i] && taskSG(tasks[j]) in podSets)
+//@     decreases len(tasks) - rangeindex
+//@   ensures [onlyOwnTasks] forall i int :: 0 <= i && i < len(result) ==> (exists j int :: 0 <= j && j < len(tasks) && tasks[j] == result[i] && taskSG(tasks[j]) in podSets)
+//@   ensures [noMore] len(result) <= len(tasks)
+//@ end
+//@ func filterTasksForPodSet
+//@   inline
+//@ end
+//@ define taskSG(t *pod_info.PodInfo) string = ite(len(t.SubGroupName) != 0, t.SubGroupName, "default")
+
+// The children of a sub-group set on ONE node set: child sub-group sets first (recursively, each with its own
+// checkpoint/rollback over the node sets of its own topology constraint: "constraints of nested sub-groups hold
+// simultaneously with those of their parents" - a child only ever sees node sets derived from the parent's), then the
+// pod sets. Any failure makes the whole attempt fail (the caller rolls back).
+//@ func allocateSubGroupSetOnNodes
+//@   props C03 C04
+//@   nopanic off
+//@   requires placeReady(ssn, stmt)
+//@   modifies *
+//@   loop 1
+//@     modifies *
+//@     invariant lenGrows(stmt)
+//@     invariant prefixKept(stmt)
+//@     invariant framework.wfKnown(stmt)
+//@     invariant framework.wfRev(stmt)
+//@     invariant framework.wfBack(stmt)
+//@     invariant framework.wfTask(stmt)
+//@     invariant framework.revFailMono()
+//@   loop 2
+//@     modifies *
+//@     invariant lenGrows(stmt)
+//@     invariant prefixKept(stmt)
+//@     invariant framework.wfKnown(stmt)
+//@     invariant framework.wfRev(stmt)
+//@     invariant framework.wfBack(stmt)
+//@     invariant framework.wfTask(stmt)
+//@     invariant framework.revFailMono()
+//@   ensures [lenGrows] lenGrows(stmt)
+//@   ensures [prefixKept] prefixKept(stmt)
+//@   ensures [wfKnownKept] framework.wfKnown(stmt)
+//@   ensures [wfRevKept] framework.wfRev(stmt)
+//@   ensures [wfBackKept] framework.wfBack(stmt)
+//@   ensures [wfTaskKept] framework.wfTask(stmt)
+//@   ensures [revFailMono] framework.revFailMono()
+//@ end
+
+//@ func allocateSubGroupSet
+//@   props C03 C04
+//@   nopanic off
+//@   requires placeReady(ssn, stmt)
+//@   modifies *
+//@   loop 1
+//@     modifies *
+//@     invariant 0 - 1 <= rangeindex && rangeindex < len(nodeSets)
+//@     invariant lenGrows(stmt)
+//@     invariant prefixKept(stmt)
+//@     invariant framework.wfKnown(stmt)
+//@     invariant framework.wfRev(stmt)
+//@     invariant framework.wfBack(stmt)
+//@     invariant framework.wfTask(stmt)
+//@     invariant framework.revFailMono()
+//@     invariant noReverseFailure() ==> len(stmt.operations) == old(len(stmt.operations))
+//@     decreases len(nodeSets) - rangeindex
+//@   # "a partially placed gang is never left in a statement that the action commits": a failed sub-group set leaves the
+//@   # log as long as it was (hypothesis: no reverse closure failed, see noReverseFailure)
+//@   ensures [failedIsRolledBack] !result && noReverseFailure() ==> len(stmt.operations) == old(len(stmt.operations))
+//@   ensures [lenGrows] lenGrows(stmt)
+//@   ensures [prefixKept] prefixKept(stmt)
+//@   ensures [wfKnownKept] framework.wfKnown(stmt)
+//@   ensures [wfRevKept] framework.wfRev(stmt)
+//@   ensures [wfBackKept] framework.wfBack(stmt)
+//@   ensures [wfTaskKept] framework.wfTask(stmt)
+//@   ensures [revFailMono] framework.revFailMono()
+//@ end
+
+// C03 "Statement commit/discard per job" + C08 "no ancestor queue above its limit" (job-level capacity gate): the job is
+// tried only if the queue-capacity callback accepts it - in EVERY mode, also in the pipeline-only simulations of
+// reclaim / preempt / consolidation - and a failed attempt leaves the statement as it was.
+//@ func AllocateJob
+//@   props C03 C08
+//@   nopanic off
+//@   usestable PodGroupInfo.PodSets map[string]*subgroup_info.PodSet
+//@   requires placeReady(ssn, stmt)
+//@   assume podgroup_info.setsOK(job) && podgroup_info.allTasksOK(job)
+//@   assume !fresh(stmt.operations)   // heap closedness: the log array reachable from the statement exists before the call
+//@   modifies *
+//@   ensures [capacityGateAlways] !framework.jobCapacityVerdict(ssn, job) ==> !result && len(stmt.operations) == old(len(stmt.operations))
+//@   ensures [failedIsRolledBack] !result && noReverseFailure() ==> len(stmt.operations) == old(len(stmt.operations))
+//@   ensures [lenGrows] lenGrows(stmt)
+//@   ensures [prefixKept] prefixKept(stmt)
+//@   ensures [wfKnownKept] framework.wfKnown(stmt)
+//@   ensures [wfRevKept] framework.wfRev(stmt)
+//@   ensures [wfBackKept] framework.wfBack(stmt)
+//@   ensures [wfTaskKept] framework.wfTask(stmt)
+//@   ensures [revFailMono] framework.revFailMono()
+//@ end
+
+// ---- solver ----
+// (section owned by helper "solver" - it was lost once when this file was rewritten as a whole: please edit the
+// file with Edit, not Write. alloc: when you put EvictAllPreemptees / GetJobsToAllocate /
+// TryToVirtuallyAllocatePreemptorAndGetVictims under a VERIFIED contract, REPLACE the block here - a duplicate
+// key is a parse error - and keep the clause tags, the solver layer is proved against them.)
+// TRUSTED for now: EvictAllPreemptees calls Statement.Evict repeatedly (framework's statement operations are
+// `modifies *` and do not re-establish stmtOK(s) for the next call); the other two sit above utils' queue code /
+// AllocateJob. What is assumed is only how they treat the statement log they are given
+// (C06 "evictions and preemptor pipeline share one Statement").
+//@ func EvictAllPreemptees
+//@   props C06
+//@   trusted
+//@   note trusted (to be replaced by a verified contract): the body calls stmt.Evict(task, ...) for the tasks of preempteeTasks in order and stops at the first error; Evict appends one evict entry for its task on success and leaves the log alone on error (framework [appendsOneEvict] [capturesTask] [errorKeepsLog])
+//@   requires stmt != nil && framework.wfLog(stmt)
+//@   modifies *
+//@   ensures [wfKept] framework.wfLog(stmt)
 //@   ensures [lenGrows] lenGrows(stmt)
 //@   ensures [prefixKept] prefixKept(stmt)
 //@   ensures [tasksKept] forall i int :: 0 <= i && i < len(preempteeTasks) ==> preempteeTasks[i] == old(preempteeTasks[i])
@@ -131,39 +384,135 @@ package common
 //@ func GetJobsToAllocate
 //@   props C06
 //@   trusted
-//@   note trusted (to be replaced by alloc's verified contract): builds a fresh JobsOrderByQueues from the pending jobs, the victims' jobs and the preemptor (utils.GetAllPendingJobs / NewJobsOrderByQueues / InitializeWithJobs); touches no statement
-//@   modifies *
+//@   note trusted (to be replaced by a verified contract): builds a fresh JobsOrderByQueues from the pending jobs, the victims' jobs and the preemptor (utils.GetAllPendingJobs / NewJobsOrderByQueues / InitializeWithJobs); touches no statement
+//@   # frame = the frame of utils.(*JobsOrderByQueues).InitializeWithJobs (the order structure and the ghost `pushed`): no statement log, no task list
+//@   modifies family(utils.pushed(preemptor)), family(utils.famJO().queueNodes[*]), family(utils.famJO().rootNodes), family(utils.famJO().rootNodes.queue), family(utils.famJO().rootNodes.maxQueueSize), family(utils.famJO().queueNodes[""].queue), family(utils.famJO().queueNodes[""].children), family(utils.famJO().queueNodes[""].needsReorder), family(utils.famJO().queueNodes[""].parent), family(utils.famJO().queueNodes[""].isLeaf), family(utils.famJO().rootNodes.queue.items[*])
 //@   ensures [resultNonNil] result != nil
-//@   ensures [logsSame] framework.logsSame()
-//@   ensures [wfKept] forall st *framework.Statement :: old(allocated(st)) && old(framework.wfLog(st)) ==> framework.wfLog(st)
-//@   ensures [lensKept] forall st *framework.Statement :: old(allocated(st)) ==> len(st.operations) == old(len(st.operations))
-//@   ensures [entriesKept] forall st *framework.Statement, j int :: old(allocated(st)) && 0 <= j && j < old(len(st.operations)) ==> st.operations[j] == old(st.operations[j])
-//@   ensures [tasksKept] forall i int :: 0 <= i && i < len(preempteeTasks) ==> preempteeTasks[i] == old(preempteeTasks[i])
 //@ end
 //@ func TryToVirtuallyAllocatePreemptorAndGetVictims
 //@   props C06
 //@   trusted
-//@   note trusted (to be replaced by alloc's verified contract): places jobs only through AllocateJob(ssn, stmt, ...), i.e. stmt.Allocate / stmt.Pipeline / stmt.Rollback of the statement it is given; these keep the log well-formed and its prefix (framework [lenGrows] [prefixKept] [newEntriesOK]); no claim about WHICH entries are appended
+//@   note trusted (to be replaced by a verified contract): places jobs only through AllocateJob(ssn, stmt, ...), i.e. stmt.Allocate / stmt.Pipeline / stmt.Rollback of the statement it is given; these keep the log well-formed and its prefix (AllocateJob [lenGrows] [prefixKept] [wf*Kept]); no claim about WHICH entries are appended
 //@   requires stmt != nil && framework.wfLog(stmt)
 //@   modifies *
-//@   ensures [wfKnownKept] framework.wfKnown(stmt)
-//@   ensures [wfRevKept] framework.wfRev(stmt)
-//@   ensures [wfBackKept] framework.wfBack(stmt)
-//@   ensures [wfTaskKept] framework.wfTask(stmt)
+//@   ensures [wfKept] framework.wfLog(stmt)
 //@   ensures [lenGrows] lenGrows(stmt)
 //@   ensures [prefixKept] prefixKept(stmt)
 //@   ensures [tasksKept] forall i int :: 0 <= i && i < len(preempteeTasks) ==> preempteeTasks[i] == old(preempteeTasks[i])
 //@ end
 // ---- end solver ----
 
-// ---- (b) the gang protocol: allocateTask .. AllocateJob ------------------------------------------------------
-// Error bookkeeping only (fit errors on the job); never touches a statement.
-//@ func handleFailedTaskAllocation
-//@   props XALLOC
-//@   requires podgroup_info.setsOK(job) && unschedulableTask != nil && job.TasksFitErrors != nil
-//@   requires podgroup_info.sgName(unschedulableTask) in job.PodSets
-//@   modifies *
-//@   loop 1
-//@     invariant framework.logsSame()
-//@   ensures [logsSame] framework.logsSame()
+// ---- exec: MinimalJobRepresentatives ----
+// C05: "scenario filters and scheduling-signature skipping must only prune hopeless scenarios" / "a wrong
+// job-signature shortcut ... silently starves workloads". A MinimalJobRepresentatives object is the table of
+// jobs that already FAILED in the current action run, one (the smallest) per scheduling signature. A later
+// job is skipped only if the table holds a representative under the job's own signature and the job is not
+// easier to schedule than that representative.
+//@ import common_info "github.com/NVIDIA/KAI-scheduler/pkg/scheduler/api/common_info"
+// the representatives field is set by NewMinimalJobRepresentatives only; the tables' maps are written by
+// UpdateRepresentative only (which only the Execute loops of the actions call)
+//@ stable MinimalJobRepresentatives.representatives
+//@ stable maptype map[common_info.SchedulingConstraintsSignature]*podgroup_info.PodGroupInfo
+// sigOf(j): the job's cached scheduling signature (what GetSchedulingConstraintsSignature returns once filled)
+//@ define sigOf(j *podgroup_info.PodGroupInfo) common_info.SchedulingConstraintsSignature = j.schedulingConstraintsSignature
+// set view of the stored representatives
+//@ define isRep(m *MinimalJobRepresentatives, j *podgroup_info.PodGroupInfo) bool = exists k in m.representatives :: m.representatives[k] == j
+//@ define repsEmpty(m *MinimalJobRepresentatives) bool = forall k common_info.SchedulingConstraintsSignature :: !(k in m.representatives)
+//@ define repsWF(m *MinimalJobRepresentatives) bool = m != nil && m.representatives != nil && (forall k in m.representatives :: m.representatives[k] != nil)
+// every stored representative belongs to queue q
+//@ define repsAllInQueue(m *MinimalJobRepresentatives, q common_info.QueueID) bool = forall k in m.representatives :: m.representatives[k].Queue == q
+// Scope discipline of a table. The victims of preempt ("of its own queue") and reclaim ("of another queue")
+// depend on the actor's queue, so a failure says something only about later jobs of the SAME queue: their
+// tables hold jobs of one queue and are consulted / updated with jobs of that queue only. Consolidation's
+// victims do not depend on the actor's queue: its single table is declared cluster-wide (assumption of
+// consolidation.Execute). clusterWide is an uninterpreted marker; nothing is known about it unless assumed.
+//@ declare clusterWide(m ref) bool
+//@ define scopeOK(m *MinimalJobRepresentatives, j *podgroup_info.PodGroupInfo) bool = clusterWide(m) || repsAllInQueue(m, j.Queue)
+// failedAttempt(j): the action's attempt for job j (attemptToPreemptForPreemptor / attemptToReclaimForSpecificJob /
+// attemptToConsolidateForPreemptor) has just returned "not succeeded". Written only by the contracts of those
+// three functions; a table accepts a job only with this mark ("representative of the jobs that FAILED").
+//@ ghost failedAttempt(j *podgroup_info.PodGroupInfo) bool
+// what the tables depend on and an attempt (solver run) leaves alone: the contents of every table that existed
+// before, and the Queue of every job that existed before
+//@ define tablesKept() bool = forall mm map[common_info.SchedulingConstraintsSignature]*podgroup_info.PodGroupInfo, k common_info.SchedulingConstraintsSignature :: old(allocated(mm)) ==> (k in mm) == old(k in mm) && mm[k] == old(mm[k])
+//@ define jobsKept() bool = forall j *podgroup_info.PodGroupInfo :: old(allocated(j)) ==> j.Queue == old(j.Queue)
+
+// sort.Slice with a comparator closure is outside the subset. Assumed: a new slice holding exactly the
+// requests of the given tasks (same length, every entry is some task's ResReq); nothing else is written.
+//@ func extractSortedResourceRequests
+//@   props C05
+//@   trusted
+//@   note sort.Slice + comparator closure are outside the subset; assumed: result is a new slice, a permutation of the tasks' ResReq pointers
+//@   pure
+//@   ensures len(result) == len(tasks)
+//@   ensures forall i int :: 0 <= i && i < len(result) ==> (exists j int :: 0 <= j && j < len(tasks) && result[i] == tasks[j].ResReq)
 //@ end
+
+// "podGroup1 is easier to schedule than podGroup2" (the answer that lets a job be tried although a job of its
+// signature already failed): never without pending pods on both sides; always when podGroup1 has fewer pending
+// pods. pendingTasks1/2 are the function's own locals (the slices GetPendingTasks returned), hence lemmas.
+// Not decided here: the position-wise comparison of the sorted request lists (sort.Slice and the uncontracted
+// ResourceRequirements.LessEqual are opaque to the engine).
+//@ func jobEasierToScheduleComparison
+//@   props C05
+//@   requires podGroup1 != nil && podGroup2 != nil
+//@   pure
+//@   nopanic off
+//@   note nopanic off: the pending pods' ResReq pointers are non-nil by the PodInfo data invariant, not restated here
+//@   loop 1
+//@     invariant 0 - 1 <= rangeindex && rangeindex < len(pg1TasksResources)
+//@     decreases len(pg1TasksResources) - rangeindex
+//@   lemma [neverEasierWithoutPendingPods] result ==> len(pendingTasks1) > 0 && len(pendingTasks2) > 0
+//@   lemma [fewerPodsIsEasier] len(pendingTasks1) > 0 && len(pendingTasks2) > len(pendingTasks1) ==> result
+//@ end
+
+// "podGroup1 has the smaller footprint" (the answer that lets a newly failed job REPLACE the stored representative)
+//@ func isPodGroupFootprintSmaller
+//@   props C05
+//@   requires podGroup1 != nil && podGroup2 != nil
+//@   pure
+//@   nopanic off
+//@   note nopanic off: the pending pods' ResReq pointers are non-nil by the PodInfo data invariant, not restated here
+//@   loop 1
+//@     invariant 0 - 1 <= rangeindex && rangeindex < len(pg1TasksResources)
+//@     decreases len(pg1TasksResources) - rangeindex
+//@   lemma [neverSmallerWithoutPendingPods] result ==> len(pendingTasks1) > 0 && len(pendingTasks2) > 0
+//@   lemma [morePodsIsNotSmaller] len(pendingTasks1) > len(pendingTasks2) ==> !result
+//@ end
+
+// "an empty object always answers true"
+//@ func NewMinimalJobRepresentatives
+//@   props C05
+//@   fresh
+//@   ensures [startsEmpty] result.representatives != nil && fresh(result.representatives) && repsEmpty(result)
+//@ end
+
+// "IsEasierToSchedule(job) returns (false, other) only if `other` is a representative stored in THIS object under
+// job's scheduling signature" and the answer is the comparison of job against that representative.
+//@ func (*MinimalJobRepresentatives).IsEasierToSchedule
+//@   props C05
+//@   requires repsWF(m) && otherJob != nil
+//@   requires [ownQueueScope] scopeOK(m, otherJob)
+//@   modifies otherJob.schedulingConstraintsSignature, family(otherJob.PodSets[""].schedulingConstraintsSignature), family(otherJob.PodSets[""].podInfos[""].schedulingConstraintsSignature), family(otherJob.PodSets[""].topologyConstraint.schedulingConstraintsSignature)
+//@   ensures [emptyTableAnswersTrue] old(repsEmpty(m)) ==> result0 && result1 == nil
+//@   ensures [unknownSignatureAnswersTrue] !(sigOf(otherJob) in m.representatives) ==> result0 && result1 == nil
+//@   ensures [falseNamesStoredRepresentative] !result0 ==> sigOf(otherJob) in m.representatives && result1 == m.representatives[sigOf(otherJob)] && isRep(m, result1)
+//@   lemma [answerIsTheComparison] found ==> result0 == jobEasierToScheduleComparison(otherJob, representative)
+//@   ensures [skipOnlyWithinScope] !result0 && !clusterWide(m) ==> result1.Queue == otherJob.Queue
+//@ end
+
+// "UpdateRepresentative stores the job under its signature only" - and only a job whose attempt just failed.
+//@ func (*MinimalJobRepresentatives).UpdateRepresentative
+//@   props C05
+//@   requires repsWF(m) && newJob != nil
+//@   requires [ownQueueScope] scopeOK(m, newJob)
+//@   requires [recordsOnlyFailedJobs] failedAttempt(newJob)
+//@   modifies m.representatives[*], newJob.schedulingConstraintsSignature, family(newJob.PodSets[""].schedulingConstraintsSignature), family(newJob.PodSets[""].podInfos[""].schedulingConstraintsSignature), family(newJob.PodSets[""].topologyConstraint.schedulingConstraintsSignature)
+//@   ensures [storesUnderOwnSignatureOnly] forall k common_info.SchedulingConstraintsSignature :: k != sigOf(newJob) ==> (k in m.representatives) == old(k in m.representatives) && m.representatives[k] == old(m.representatives[k])
+//@   ensures [ownSlotFilled] sigOf(newJob) in m.representatives
+//@   ensures [firstFailureRecorded] forall k common_info.SchedulingConstraintsSignature :: k == sigOf(newJob) && !old(k in m.representatives) ==> m.representatives[k] == newJob
+//@   ensures [onlyThisJobAdded] forall k in m.representatives :: m.representatives[k] == newJob || (old(k in m.representatives) && m.representatives[k] == old(m.representatives[k]))
+//@   ensures [scopeKept] old(repsAllInQueue(m, newJob.Queue)) ==> repsAllInQueue(m, newJob.Queue)
+//@   ensures [wfKept] repsWF(m)
+//@ end
+// ---- end exec ----
